@@ -33,6 +33,23 @@ def gen_cases(tier, seed):
     for i in range(n2):
         cases.append({"cfg": dzoo.sample_program_flow(rng, 2), "seed": env.subseed(seed, "c03", 2, i), "world": "f64",
                       "n": 260 if tier == "quick" else 700, "cost": 6})
+    # every 1-D body family once per run with its non-default arguments (LogTanh cut points other than 1, squashing pairs with
+    # temperatures, ...): a family that is drawn by chance only is missed on some seeds
+    k = 0
+    for fam in dzoo.BODY_1D:
+        for rep in range(2):
+            if fam in ("composite_cdf", "squash_pair"):
+                c = zoo.FAM[fam].sample_cfg(rng, "quick")
+                c["shape"] = [1]
+            else:
+                c = zoo.sample_R_cfg(rng, "quick", 1, 0, fams=[fam])
+            if fam == "logtanh":
+                c["cut"] = [0.5, 2.0][rep]
+            cfg = {"flow": "program", "D": 1, "ctx": 0, "data": "R", "parts": [c], "base": ["standard", "diag"][rep], "embed": False,
+                   "embed_same_width": False, "narrow": False, "policy": ["randn0.3", "randn1"][rep]}
+            cases.append({"cfg": cfg, "seed": env.subseed(seed, "c03must", k), "world": "f64",
+                          "n": 100000 if tier == "quick" else 400000, "cost": 2})
+            k += 1
     # packaged flows at 2 features
     for i in range(4 if tier == "quick" else 30):
         cfg = {"flow": "maf" if i % 2 == 0 else "realnvp", "D": 2, "hidden": 8, "layers": 1 + i % 2, "blocks": 1,
